@@ -109,6 +109,40 @@ impl Condvar {
         self.inner.notify_all()
     }
 
+    pub fn wait<'a, T>(&self, guard: MutexGuard<'a, T>) -> LockResult<MutexGuard<'a, T>> {
+        self.inner.wait(guard)
+    }
+
+    pub fn wait_while<'a, T, F>(&self, mut guard: MutexGuard<'a, T>, mut condition: F) -> LockResult<MutexGuard<'a, T>>
+    where
+        F: FnMut(&mut T) -> bool,
+    {
+        while condition(&mut *guard) {
+            guard = match self.inner.wait(guard) {
+                Ok(g) => g,
+                Err(e) => e.into_inner(),
+            };
+        }
+        Ok(guard)
+    }
+
+    /// A timed wait without a predicate: times out at once while the budget lasts, else blocks
+    /// until notified (a notification that came before the wait is lost, as with std).
+    pub fn wait_timeout<'a, T>(&self, guard: MutexGuard<'a, T>, _dur: Duration) -> LockResult<(MutexGuard<'a, T>, WaitTimeoutResult)> {
+        TIMED_WAITS.fetch_add(1, StdOrdering::SeqCst);
+        let left = TIMEOUT_BUDGET.load(StdOrdering::SeqCst);
+        if left > 0 {
+            TIMEOUT_BUDGET.store(left - 1, StdOrdering::SeqCst);
+            TIMEOUTS_FIRED.fetch_add(1, StdOrdering::SeqCst);
+            return Ok((guard, WaitTimeoutResult(true)));
+        }
+        let guard = match self.inner.wait(guard) {
+            Ok(g) => g,
+            Err(e) => e.into_inner(),
+        };
+        Ok((guard, WaitTimeoutResult(false)))
+    }
+
     /// std's contract: waits while `condition` holds, at most `dur`.  Here a wait either times
     /// out at once (while the per-execution budget lasts) or blocks until notified.
     pub fn wait_timeout_while<'a, T, F>(&self, mut guard: MutexGuard<'a, T>, _dur: Duration, mut condition: F) -> LockResult<(MutexGuard<'a, T>, WaitTimeoutResult)>
